@@ -6,6 +6,7 @@ pub mod app;
 pub mod facts;
 pub mod gen;
 pub mod mon_c01;
+pub mod mon_c02;
 pub mod mon_c03;
 pub mod mon_c08;
 pub mod mon_c09;
@@ -35,6 +36,23 @@ pub fn registry() -> Vec<Property> {
             "the virtual-time cap ends a case without verdict (counted as class `capped`)",
         ],
         subs: mon_c01::subs(),
+        shards: 0,
+    },
+    Property {
+        id: "C02",
+        rule: "family 1: generated scenarios (windows / stream limits / send buffers drawn small in 70% of the endpoints so that every kind of \
+               blocking occurs, both initiators, no aborts) whose drop/duplicate/delay faults are confined to the first 30 datagrams per direction, \
+               then a clean network: judged when the faulty period is shorter than a third of the idle timeout; every application future must resolve \
+               Ok and every stream be read to a clean end before a generous virtual-time cap. Family 2: a permanent blackhole of one or both \
+               directions from a generated instant (incl. t=0 and mid-handshake), plus the sweep of all instants 0,5,..,195 ms of a fixed exchange: \
+               every pending operation must fail no later than last-reception + max(idle, 3 PTO) + PTO + 1 s (+10 s handshake budget before \
+               confirmation), PTO = largest (srtt + max(4 rttvar, 1 ms) + max_ack_delay) * 2^pto_count in the endpoint's recovery_metrics. \
+               Non-trivial: (family 1) a *_BLOCKED frame was sent and a datagram carrying MAX_* or ACK was lost; (family 2) every case.",
+        assumptions: &[
+            "liveness is decided as bounded-time safety on the virtual clock; the deadline uses an upper bound of the PTO, so lateness below the slack is not detected",
+            "window 0 / stream limit 0 configurations are excluded (no progress possible by construction)",
+        ],
+        subs: mon_c02::subs(),
         shards: 0,
     },
     Property {
